@@ -520,4 +520,18 @@ example : tempConv (K := Rat) genSyms genNames exactTab ⟨none, .degC⟩ ⟨non
 example : diffGuard (K := Rat) ⟨none, .K⟩ = true
     ∧ tempDiff (K := Rat) exactTab ⟨none, .K⟩ 1 10 = .ok (⟨none, .dC⟩, 9) := by decide +kernel
 
+/-- operands on an offset scale (hypotheses of the ×, ÷, power and diff refusals) -/
+example : opndOnOffsetScale (K := Rat) (.temp ⟨none, .degC⟩) = true
+    ∧ onOffsetScale (K := Rat) ⟨some ⟨[109], 1 / 1000⟩, .degC⟩ = true
+    ∧ powerLike (.power 3) = true ∧ powerLike .sqrt = true := by decide +kernel
+/-- `np.subtract.reduce` on °C readings is labelled Δ°C -/
+example : reduceUnit (K := Rat) .difference exactTab ⟨none, .degC⟩ = .ok (some ⟨none, .dC⟩) := by
+  decide +kernel
+/-- the repaired sum on the witness: 1 Δ°C + 50 °F = 51.8 °F; the repaired `diff` keeps rankine -/
+example : tempAddFixed (K := Rat) exactTab ⟨none, .dC⟩ 1 ⟨none, .degF⟩ 50 = .ok (⟨none, .degF⟩, 259 / 5)
+    ∧ tempDiffFixed (K := Rat) exactTab ⟨none, .R⟩ 1 10 = .ok (⟨none, .R⟩, 9) := by decide +kernel
+/-- a prefixed unit of the universe with a prefixable symbol (hypothesis `WFP` of the conversion theorem) -/
+example : (⟨some ⟨[109], 1 / 1000⟩, .degC⟩ : TU Rat).WFP :=
+  ⟨⟨by decide +kernel, by decide +kernel⟩, fun _ => rfl⟩
+
 end Unyt.C08
